@@ -77,13 +77,21 @@ void VS_ACTION(anode *self, struct vp_tuple_vp_refw_int *p) { self->g_runs++; se
 #define RACT__INIT_CONTRACT
 
 #include "unit.c"
+#ifdef WANT_MCOND
 #include "mcond_outlined.c"
+#endif
+#ifdef WANT_RACT
 #include "ract_outlined.c"
+#endif
 int nondet_int(void); unsigned long nondet_ulong(void);
 static void ghost(void) { g_shape = nondet_int(); g_n = nondet_ulong(); g_clock0 = nondet_ulong(); vp_clock = nondet_ulong(); }
+#ifdef WANT_MCOND
 void m_iter(void) { struct mcond_st *s; ghost(); mcond__iter(s); __CPROVER_assert(g_shape != 0, "REACH mcond cur=W last"); __CPROVER_assert(g_shape != 1 + 3, "REACH mcond cur=node next=W"); __CPROVER_assert(g_shape != 2, "REACH mcond cur=sentinel"); __CPROVER_assert(g_shape != 1 + 6, "REACH mcond cur=node next=node"); }
 void m_exit(void) { struct mcond_st *s; ghost(); mcond__exit(s); __CPROVER_assert(g_shape != 2, "REACH mcond exit"); }
 void m_init(void) { struct mcond_st *s; mcond__init(s); __CPROVER_assert(0, "REACH mcond init"); }
+#endif
+#ifdef WANT_RACT
 void a_iter(void) { struct ract_st *s; ghost(); vp_lock_depth = 1; ract__iter(s); __CPROVER_assert(g_shape != 0, "REACH ract cur=W last"); __CPROVER_assert(g_shape != 1 + 3, "REACH ract cur=node next=W"); __CPROVER_assert(g_shape != 2, "REACH ract cur=sentinel"); }
 void a_exit(void) { struct ract_st *s; ghost(); vp_lock_depth = 1; ract__exit(s); __CPROVER_assert(g_shape != 2, "REACH ract exit"); }
+#endif
 int main(void) { VP_ENTRY(); return 0; }
